@@ -278,12 +278,12 @@ impl Circuit {
         let mut lines = lines_str.into_iter();
 
         // Parse wire and gate counts
-        let (wires_num, _gates_num) = {
+        let (wires_num, _gates_num, header_line) = {
             let (parts, line_str) = parse_line(lines.next())?;
             if parts.len() != 2 {
                 return Err(FromBristolError::MalformedLine(line_str));
             }
-            (parts[1], parts[0])
+            (parts[1], parts[0], line_str)
         };
 
         // Parse input line
@@ -301,7 +301,12 @@ impl Circuit {
                     expected_parties,
                 ));
             }
-            let input_wires: usize = input_gates.iter().sum();
+            let Some(input_wires) = input_gates
+                .iter()
+                .try_fold(0usize, |sum, n| sum.checked_add(*n))
+            else {
+                return Err(FromBristolError::MalformedLine(line_str));
+            };
             (input_gates, input_wires)
         };
 
@@ -319,7 +324,20 @@ impl Circuit {
                     num_outputs,
                 ));
             }
-            let num_output_wires = gates_per_output.iter().sum::<usize>();
+            let Some(num_output_wires) = gates_per_output
+                .iter()
+                .try_fold(0usize, |sum, n| sum.checked_add(*n))
+            else {
+                return Err(FromBristolError::MalformedLine(line_str));
+            };
+            // every output wire is a wire, and every wire is either an input or assigned by one
+            // of the remaining lines
+            if num_output_wires > wires_num
+                || input_wires_num > wires_num
+                || wires_num > input_wires_num.saturating_add(lines.len())
+            {
+                return Err(FromBristolError::MalformedLine(header_line));
+            }
             (vec![0; num_output_wires], num_output_wires)
         };
 
@@ -342,7 +360,7 @@ impl Circuit {
             }
             let num_inputs: usize = parts[0].parse()?;
             let num_outputs: usize = parts[1].parse()?;
-            if num_outputs != 1 || parts.len() != num_inputs + 4 {
+            if num_outputs != 1 || num_inputs.checked_add(4) != Some(parts.len()) {
                 return Err(FromBristolError::MalformedLine(line_str));
             }
             let input_wires: Vec<usize> = parts[2..(2 + num_inputs)]
